@@ -58,7 +58,7 @@ def cases(tier):
                     for k in ('file', 'tree', 'ldang'):
                         out.append({'kind': k, 'sp': './x', 'opt': o, 'lay': lay, 'name': nm})
     # one run names a directory that CONTAINS the only candidate trash directory (its move fails by itself: rename says EINVAL) next to an ordinary entry
-    for order in ('holder-first', 'holder-last'):
+    for order in ('holder-first', 'holder-last', 'holder-linked-first', 'holder-linked-last'):
         for k in ('file', 'tree', 'ldang'):
             for o in ('-', '-v', '-f'):
                 out.append({'special': 'holder', 'order': order, 'kind': k, 'opt': o, 'sp': 'hold+post', 'lay': 'trash-dir-inside-argument'})
@@ -89,8 +89,14 @@ def run_special(c):
     W.dir(H).file(H + '/keep', 'inside the holder\n')
     scen.add_trash_dir(W, T)
     scen.add_entry(W, P, c['kind'])
-    args = ['hold', 'post'] if c['order'] == 'holder-first' else ['post', 'hold']
-    argv = ['trash-put'] + ([c['opt']] if c['opt'] != '-' else []) + ['--trash-dir', 'hold/T'] + args
+    hold = 'hold'
+    tdspell = 'hold/T'
+    if 'linked' in c['order']:
+        # the holder is reached through a symlinked parent (lh -> the working directory) while the trash directory is named by its real, absolute path
+        W.link(B + '/lh', B)
+        hold, tdspell = 'lh/hold', T
+    args = [hold, 'post'] if c['order'].endswith('first') else ['post', hold]
+    argv = ['trash-put'] + ([c['opt']] if c['opt'] != '-' else []) + ['--trash-dir', tdspell] + args
     with cell.Sandbox(W.spec()) as sb:
         before = sb.snapshot()
         r = sb.run(argv, cwd=B)
